@@ -402,7 +402,7 @@ def wire_value(F, adt, variant):
     return F.discr_map(adt)[variant]
 
 
-def expand_all(interned, t, depth=40):
+def expand_all(interned, t, depth=400):
     """Substitute interned sub-terms ('#', i) back (bounded depth) for inspection."""
     if not isinstance(t, tuple) or depth <= 0:
         return t
